@@ -240,15 +240,22 @@ def run_schedules(payload):
     if not any(v["status"] == "ok" for v in ref["results"].values()):
         return out
     specs = payload.get("specs")
+    # moment_matching is exact only when no Gaussian mixture is involved (the property says so):
+    # programs of the Gaussian workload are never forced or scheduled through it
+    gaussian = any(op["op"] in ("gaussian", "delta") for op in prog)
+    forces = [f for f in FORCES if not (gaussian and f == "moment_matching")]
     if specs is None:
         specs = []
         for s in range(payload["nsched"]):
             nev = r.choice([0, 1, 1, 2])
+            sched = make_schedule(r, len(prog))
+            if gaussian:
+                sched = [x.replace("moment_matching>normalize", "normalize") for x in sched]
             specs.append(
                 {
-                    "schedule": make_schedule(r, len(prog)),
+                    "schedule": sched,
                     "events": [r.choice(EVENTS) for _ in range(nev)],
-                    "force": r.choice(FORCES),
+                    "force": r.choice(forces),
                     "jump": r.choice([1, 9, 99, 1000, 10**6 - 3]),
                     "fail_at": r.randint(1, 400),
                 }
